@@ -176,8 +176,13 @@ def match_known(known, prop, case, obligation, model, detail):
     return None
 
 
+def _evidence_dir():
+    # development runs against a scratch copy of the repository (VERIF_REPO=...) must not overwrite the evidence describing /repo
+    return os.environ.get("VERIF_EVIDENCE_DIR") or os.path.join(VERIF, "evidence")
+
+
 def run_replay(prop, script_text):
-    d = os.path.join(VERIF, "evidence", "replays")
+    d = os.path.join(_evidence_dir(), "replays")
     os.makedirs(d, exist_ok=True)
     h = hashlib.sha1(script_text.encode()).hexdigest()[:10]
     path = os.path.join(d, f"{prop}-{h}.py")
@@ -368,8 +373,8 @@ def main(check_mod_name, argv=None):
         "wall_s": round(wall, 2),
         "violations": len(violations),
     }
-    os.makedirs(os.path.join(VERIF, "evidence"), exist_ok=True)
-    with open(os.path.join(VERIF, "evidence", f"{prop}.json"), "w") as f:
+    os.makedirs(_evidence_dir(), exist_ok=True)
+    with open(os.path.join(_evidence_dir(), f"{prop}.json"), "w") as f:
         json.dump(ev, f, indent=1, default=str)
     print(f"{prop} [{args.tier}] cases={len(per_case)} paths={tot['paths']} obligations={tot['obligations']} discharged={tot['discharged']} "
           f"queries={tot['sat_queries']} solver_s={tot['solver_s']:.1f} twins_killed={len(killed_names)}/{len({t.name for t in twins})} "
